@@ -474,7 +474,18 @@ def get_skip_if_condition(skip_if, _locals, operand_2):
     if skip_if.t_or_f:  # Truthy or falsy condition, no operand
         return True
 
-    if is_builtin(skip_if.val):
+    val = skip_if.val
+
+    # In-line the value (via its `repr`) only when that text is an expression
+    # which denotes the value itself: the builtin singletons and -- for any
+    # operator other than `is` / `is not`, which compare identity -- a plain
+    # `int`, `str` or (finite) `float`. Anything else, such as `object()`,
+    # a class, a builtin function, or a `tuple`, is passed as a local variable.
+    if is_builtin(val) and (
+        val is None or val is True or val is False or val is ...
+        or (skip_if.op not in ('is', 'is not')
+            and type(val) in (int, str, float))
+    ):
         return str(skip_if)
 
     # Update locals (as `val` is not a builtin)
